@@ -733,8 +733,16 @@ func checkDecodeGuards(p *Prog, r *Result, info *types.Info, decFD *ast.FuncDecl
 		analyseReflect(p, r, info, tuFD, "textUnmarshaler", nil)
 	}
 	pkg := p.Pkg("syntax/typedjson")
-	decObj := lookupFunc(pkg, "decodeValue")
-	tuObj := lookupFunc(pkg, "textUnmarshaler")
+	var decObj, tuObj *types.Func
+	if o, ok := info.Defs[decFD.Name].(*types.Func); ok {
+		decObj = o // a function, or the method a refactor turned it into
+	}
+	if tuFD != nil {
+		if o, ok := info.Defs[tuFD.Name].(*types.Func); ok {
+			tuObj = o
+		}
+	}
+	_ = pkg
 
 	// call sites of decodeValue and textUnmarshaler in the whole package
 	for _, fd := range p.AllFuncDecls("syntax/typedjson") {
